@@ -21,7 +21,7 @@ constexpr auto zeroTimeout = Duration(0);
 constexpr int handshakeStepsMax = 10;
 
 template<typename Fn>
-auto UnderDeadline(Fn &&fn, Duration &timeout) -> auto
+auto UnderDeadline(Fn &&fn, Duration &timeout, TimePoint until) -> auto
 {
   if(timeout.count() <= 0) { // remains unchanged
     return fn();
@@ -29,6 +29,7 @@ auto UnderDeadline(Fn &&fn, Duration &timeout) -> auto
 
   // update timeout (may be exceeded)
   DeadlineLimited deadline(timeout);
+  deadline.deadline = until; // of the whole operation, not of this step
   auto res = fn();
   deadline.Tick();
   timeout = deadline.Remaining();
@@ -228,7 +229,7 @@ std::optional<size_t> SocketTlsImpl::Receive(
     char *data, size_t size, Duration timeout)
 {
   // timeout will be honored during waiting and BIO read/write
-  remainingTime = timeout;
+  SetTimeout(timeout);
 
   if(auto received = Read(data, size)) {
     return {received};
@@ -258,7 +259,7 @@ size_t SocketTlsImpl::Receive(char *data, size_t size)
 size_t SocketTlsImpl::Send(char const *data, size_t size, Duration timeout)
 {
   // timeout will be honored during waiting and BIO read/write
-  remainingTime = timeout;
+  SetTimeout(timeout);
 
   return Write(data, size);
 }
@@ -273,6 +274,16 @@ size_t SocketTlsImpl::SendSome(char const *data, size_t size)
   }
 
   return Write(data, size);
+}
+
+void SocketTlsImpl::SetTimeout(Duration timeout)
+{
+  remainingTime = timeout;
+  if(timeout.count() > 0) {
+    // the remaining time is rounded to Duration after each step of the operation:
+    // derive it from this fixed point in time or each step costs a fraction too much
+    deadline = Clock::now() + timeout;
+  }
 }
 
 void SocketTlsImpl::Connect(SockAddrView const &connectAddr)
@@ -342,7 +353,7 @@ void SocketTlsImpl::Shutdown()
   // timeout will be honored during waiting and BIO read/write
   isReadable = false;
   isWritable = false;
-  remainingTime = std::chrono::seconds(1);
+  SetTimeout(std::chrono::seconds(1));
 
   ERR_clear_error();
   if(SSL_shutdown(ssl.get()) <= 0) {
@@ -395,7 +406,7 @@ size_t SocketTlsImpl::BioRead(char *data, size_t size)
   // (try to) receive handshake / user data and update remaining time
   auto received = UnderDeadline([=]() -> std::optional<size_t> {
     return sockpuppet::Receive(this->fd, data, size, remainingTime);
-  }, remainingTime);
+  }, remainingTime, deadline);
   if(received) {
     return *received;
   }
@@ -451,9 +462,10 @@ size_t SocketTlsImpl::BioWrite(char const *data, size_t size)
   }
 
   // (try to) send handshake / user data and update remaining time
-  DeadlineLimited deadline(remainingTime);
-  auto sent = sockpuppet::SendSome(this->fd, data, size, deadline);
-  remainingTime = (sent == size ? deadline.Remaining() : zeroTimeout); // update timeout (may be exceeded)
+  DeadlineLimited stepDeadline(remainingTime);
+  stepDeadline.deadline = deadline; // of the whole operation, not of this step
+  auto sent = sockpuppet::SendSome(this->fd, data, size, stepDeadline);
+  remainingTime = (sent == size ? stepDeadline.Remaining() : zeroTimeout); // update timeout (may be exceeded)
   return sent;
 }
 
@@ -483,11 +495,11 @@ bool SocketTlsImpl::HandleError(int error)
     // wait and update remaining time
     return UnderDeadline([this]() -> bool {
       return WaitReadable(this->fd, remainingTime);
-    }, remainingTime);
+    }, remainingTime, deadline);
   case SSL_ERROR_WANT_WRITE:
     return UnderDeadline([this]() -> bool {
       return WaitWritable(this->fd, remainingTime);
-    }, remainingTime);
+    }, remainingTime, deadline);
   case SSL_ERROR_SSL:
     throw std::system_error(SslError(error), errorMessage);
   case SSL_ERROR_SYSCALL:
